@@ -416,7 +416,7 @@ def run_wrapper_shard(desc, seed, tier, col):
             self.data_len = 0
             self.failed = False
 
-        @initialize(n=st.sampled_from([0, 5, 300, BUF, BUF + 1, 2 * BUF + 77, 3 * BUF + 1, 40000]), nb=st.booleans())
+        @initialize(n=st.sampled_from([0, 1, 2, 5, 5, 12, 300, BUF, BUF + 1, 2 * BUF + 77, 3 * BUF + 1, 40000]), nb=st.booleans())
         def setup(self, n, nb):
             self.data_len = n
             self.nb = nb            # the raw source is non-blocking and is fed by the history itself
